@@ -33,6 +33,15 @@ def _pool_map(fn, items, chunk=8):
         return pool.map(fn, items, chunksize=max(1, min(chunk, len(items) // (4 * NPROC) or 1)))
 
 
+def _exec_viol(viol):
+    """first executability violation (C01/C02 clause of the reference executor) of a stream: a
+    stream that an executor cannot carry out does not attain any optimum"""
+    for p, c, d in viol:
+        if p in ("C01", "C02"):
+            return "%s: %s" % (c, d)
+    return None
+
+
 def _result(box, rule, clauses):
     return {"evaluations": 0, "distinct_nontrivial": 0, "rule": rule, "samples": [],
             "exhaustive": True, "box": box, "clauses": clauses, "violations": []}
@@ -45,8 +54,8 @@ def _viol(prop, clause, spec, detail):
 
 # ------------------------------------------------------------------ streams
 def _stream_worker(job):
-    spec, passes = job
-    r = drive(spec, passes=passes, keep_stream=True)
+    spec, passes = job[:2]
+    r = drive(spec, passes=passes, keep_stream=True, interfere=job[2] if len(job) > 2 else None)
     seen = {}
     for p, c, d in r["viol"]:
         seen.setdefault((p, c), d)
@@ -103,6 +112,16 @@ def stream_box(tier, seed, props):
     # schedules were built before it in the same process (module- or class-level caches keyed by too
     # few parameters show up only in one of the two orders)
     out += _pool_map(_stream_worker, list(reversed(jobs[:exhaustive_count])))
+    # third pass with interference: each schedule runs while another schedule of the same class (its
+    # neighbour in the box) is alive and is advanced in lockstep - instances must not share state
+    by_class = {}
+    for s_ in specs[:exhaustive_count]:
+        by_class.setdefault(s_[0], []).append(s_)
+    inter = []
+    for cls, lst in by_class.items():
+        for k, s_ in enumerate(lst):
+            inter.append((s_, tp["passes"], lst[(k + 7) % len(lst)]))
+    out += _pool_map(_stream_worker, inter)
     res = {}
     for p in props:
         res[p] = _result(
@@ -209,6 +228,8 @@ def c05(tier, seed):
         list(boxes.revolve_specs(tier, classes=("Revolve",)))
     # (both orders: see stream_box)
     out = _pool_map(_stream_worker, [(s, 1) for s in sp]) + _pool_map(_stream_worker, [(s, 1) for s in reversed(sp)])
+    # (and under interference from another live schedule: see stream_box)
+    out += _pool_map(_stream_worker, [(s, 1, sp[(k + 7) % len(sp)]) for k, s in enumerate(sp)])
     for spec, viol, stats, nact, nontrivial, head in out:
         name, args = spec[0], spec[1]
         n = args[0]
@@ -216,6 +237,8 @@ def c05(tier, seed):
         r["evaluations"] += 1
         if nontrivial:
             r["distinct_nontrivial"] += 1
+        if _exec_viol(viol):
+            r["violations"].append(_viol("C05", "optimal_stream_is_executable", spec, _exec_viol(viol)))
         err = [d for p, c, d in viol if p == "C17"]
         if err:
             r["violations"].append(_viol("C05", "adjoint_completed", spec, err[0]))
@@ -249,6 +272,7 @@ def c06(tier, seed):
             for st in ("RAM", "DISK"):
                 sp.append(("Mixed", (n, s), (("storage", st),), n))
     out = _pool_map(_stream_worker, [(s, 1) for s in sp]) + _pool_map(_stream_worker, [(s, 1) for s in reversed(sp)])
+    out += _pool_map(_stream_worker, [(s, 1, sp[(k + 7) % len(sp)]) for k, s in enumerate(sp)])
     by = {}
     for spec, viol, stats, nact, nontrivial, head in out:
         n, s = spec[1]
@@ -259,6 +283,8 @@ def c06(tier, seed):
         if err:
             r["violations"].append(_viol("C06", "adjoint_completed", spec, err[0]))
             continue
+        if _exec_viol(viol):
+            r["violations"].append(_viol("C06", "optimal_stream_is_executable", spec, _exec_viol(viol)))
         want = specs.mixed_opt(n, s)
         if stats["fwd_steps"] != want:
             r["violations"].append(_viol("C06", "stream_steps_equal_mixed_optimum", spec,
@@ -306,9 +332,18 @@ def _c07_worker(job):
 
     def run(spec):
         r = drive(spec, passes=1, keep_stream=False, observe=False)
+        if r["error"] is None and n >= 4:
+            # the same schedule while another one of its class (two steps shorter) is alive
+            other = (spec[0], (n - 2,) + tuple(spec[1][1:]), spec[2], n - 2)
+            r2 = drive(spec, passes=1, keep_stream=False, observe=False, interfere=other)
+            if r2["error"] is not None or r2["stats"] != r["stats"] or _exec_viol(r2["viol"]):
+                out.append(("independent_of_other_live_schedules", spec,
+                            "alone: %s; next to %s: %s %s" % (r["stats"], other[:2], r2["error"], r2["stats"])))
         if r["error"] is not None:
             out.append(("adjoint_completed", spec, str(r["error"])))
             return None
+        if _exec_viol(r["viol"]):
+            out.append(("optimal_stream_is_executable", spec, _exec_viol(r["viol"])))
         return _cost(r["stats"], n, c)
     for cls in ("Revolve", "DiskRevolve", "PeriodicDiskRevolve"):
         spec = (cls, (n, s) + tuple(c), (), n)
@@ -753,6 +788,8 @@ def _c13_worker(spec):
     r = drive(spec, passes=3, keep_stream=True, observe=False)
     if r["error"] is not None:
         return spec, [("stream_error", str(r["error"]))], 0
+    if _exec_viol(r["viol"]):
+        viol.append(("recomputation_stream_is_executable", _exec_viol(r["viol"])))
     stream = r["stream"]
     # forward phase: exactly Forward(k*p,(k+1)*p,True,False,DISK), k = 0,1,...
     k = 0
@@ -1343,6 +1380,8 @@ def _c19_worker(job):
     r = drive(spec, passes=1, keep_stream=True, observe=False)
     if r["error"] is not None:
         return job, [("stream_error", str(r["error"]))], None
+    if _exec_viol(r["viol"]):
+        viol.append(("periodic_stream_is_executable", _exec_viol(r["viol"])))
     m = specs.period(cm, uf, wd, rd)
     l = n - 1
     want_writes = []
